@@ -3,6 +3,7 @@ Helper lemmas for C18: the tiled loops enumerate the index range block by block.
 -/
 import OccaProofs.Lemmas.Loop
 import Mathlib.Tactic.Linarith
+import Mathlib.Data.List.Perm.Basic
 
 namespace Occa.Loop
 
@@ -352,5 +353,15 @@ theorem tiledLaunch_closed (h : Header) (T : Int) (check : Bool) (hv : h.Valid) 
   apply flatMap_congr'
   intro j _
   exact inner_block h T check hv hs hT j
+
+/-! ### interchanging independent loops permutes the visits -/
+
+theorem flatMap_comm_perm {α β γ : Type} (l1 : List α) (l2 : List β) (g : α → β → List γ) :
+    (l1.flatMap fun a => l2.flatMap fun b => g a b).Perm (l2.flatMap fun b => l1.flatMap fun a => g a b) := by
+  induction l1 with
+  | nil => simp
+  | cons a t ih =>
+    simp only [List.flatMap_cons]
+    exact (ih.append_left _).trans (List.flatMap_append_perm l2 (g a) (fun b => t.flatMap fun a' => g a' b))
 
 end Occa.Loop
